@@ -499,17 +499,20 @@ func driver() {
 			fmt.Printf("WARNING probe %q stuck at zero\n", k)
 		}
 	}
+	for _, s := range infra {
+		fmt.Fprintf(os.Stderr, "INFRA: %s\n", oneLine(s, 2000))
+	}
+	if unlisted > 0 {
+		// a violation found, minimised and written as a replay file stands on its
+		// own, whatever else went wrong in the batch (e.g. a worker that never
+		// came back because the code under test hangs on some input)
+		os.Exit(1)
+	}
 	if len(infra) > 0 {
-		for _, s := range infra {
-			fmt.Fprintf(os.Stderr, "INFRA: %s\n", oneLine(s, 2000))
-		}
 		os.Exit(2)
 	}
 	if agg.Runs == 0 {
 		die(2, "no runs executed")
-	}
-	if unlisted > 0 {
-		os.Exit(1)
 	}
 }
 
